@@ -810,6 +810,20 @@ func GFirstNonNil[T ~*int](a, b T) T {
 
 type NamedPtr *int
 
+// type parameters without type terms: comparable, any, an interface with methods, both
+func GFirst[T comparable](xs []T) T { return xs[0] }
+
+func GFirstM[T interface {
+	comparable
+	Error() string
+}](xs []T) T {
+	return xs[0]
+}
+
+func GLast[T any](xs []T) T { return xs[len(xs)-1] }
+
+func GSecond[T interface{ Error() string }](a, b T) T { return b }
+
 var _ = errors.New
 var _ unsafe.Pointer
 `
@@ -852,6 +866,11 @@ func GenNilModule(r *Rand, dir string, na, nb int) []GFunc {
 		{Params: []int{ti("any")}, Results: []int{ti("any")}, Fixed: "(n int, p0 any) any { return GId[any](p0) }"},
 		{Params: []int{ti("any"), ti("*int")}, Results: []int{ti("*int")}, Fixed: "(n int, p0 any, p1 *int) *int { return GFirstNonNil[*int](GPickNew[*int](p0), p1) }"},
 		{Params: []int{ti("any")}, Results: []int{ti("error")}, Fixed: "(n int, p0 any) error {\n\tif p := GPickNew[*int](p0); p == nil {\n\t\treturn errors.New(\"nil\")\n\t}\n\treturn nil\n}"},
+		{Params: []int{ti("error")}, Results: []int{ti("error")}, Fixed: "(n int, p0 error) error { return GFirst([]error{p0}) }"},
+		{Params: []int{ti("*int")}, Results: []int{ti("*int")}, Fixed: "(n int, p0 *int) *int { return GFirst([]*int{p0}) }"},
+		{Params: []int{ti("error")}, Results: []int{ti("error")}, Fixed: "(n int, p0 error) error { return GFirstM([]error{p0}) }"},
+		{Params: []int{ti("any")}, Results: []int{ti("any")}, Fixed: "(n int, p0 any) any { return GLast([]any{p0}) }"},
+		{Params: []int{ti("error")}, Results: []int{ti("error")}, Fixed: "(n int, p0 error) error { return GSecond[error](nil, p0) }"},
 	} {
 		w.Pkg, w.Name = "a", fmt.Sprintf("GW%d", k)
 		g.funcs = append(g.funcs, w)
@@ -933,6 +952,12 @@ func GenNilModule(r *Rand, dir string, na, nb int) []GFunc {
 				fmt.Fprintf(&sb, "func C_%s_%s_%d() bool { %s := %s.%s(%s); return r == nil }\n", f.Pkg, f.Name, k, strings.Join(lhs, ", "), f.Pkg, f.Name, strings.Join(args, ", "))
 			}
 		}
+		// the generic library instantiated with interface types, compared with nil
+		sb.WriteString("func C_a_GFirst_0() bool { r := a.GFirst([]error{nil}); return r == nil }\n")
+		sb.WriteString("func C_a_GFirstM_0() bool { r := a.GFirstM([]error{nil}); return r == nil }\n")
+		sb.WriteString("func C_a_GLast_0() bool { r := a.GLast([]any{nil}); return r == nil }\n")
+		sb.WriteString("func C_a_GSecond_0() bool { r := a.GSecond[error](nil, nil); return r == nil }\n")
+		sb.WriteString("func C_a_GId_0() bool { r := a.GId[error](nil); return r == nil }\n")
 		WriteFile(filepath.Join(dir, "c", "c.go"), sb.String())
 	}
 	WriteFile(filepath.Join(dir, "go.mod"), "module example.com/nilgen\n\ngo 1.22\n")
@@ -985,6 +1010,18 @@ func runGenerics() {
 		try(func() { r := a.GAssertOk[[]int](x); record("a.GAssertOk", 0, r == nil, false, r) })
 		try(func() { r := a.GId[any](x); record("a.GId", 0, r == nil, true, r) })
 	}
+	for _, e := range []error{nil, errors.New("x"), (*a.MyErr)(nil)} {
+		try(func() { r := a.GFirst([]error{e}); record("a.GFirst", 0, r == nil, true, r) })
+		try(func() { r := a.GFirstM([]error{e}); record("a.GFirstM", 0, r == nil, true, r) })
+		try(func() { r := a.GLast([]any{e}); record("a.GLast", 0, r == nil, true, r) })
+		try(func() { r := a.GSecond[error](nil, e); record("a.GSecond", 0, r == nil, true, r) })
+		try(func() { r := a.GId[error](e); record("a.GId", 0, r == nil, true, r) })
+	}
+	for _, p := range []*int{nil, new(int)} {
+		try(func() { r := a.GFirst([]*int{p}); record("a.GFirst", 0, r == nil, false, r) })
+		try(func() { r := a.GLast([]*int{p}); record("a.GLast", 0, r == nil, false, r) })
+	}
+	try(func() { r := a.GFirst([]int{1}); _ = r })
 	try(func() { r := a.GZero[*int](); record("a.GZero", 0, r == nil, false, r) })
 	try(func() { r := a.GZero[[]int](); record("a.GZero", 0, r == nil, false, r) })
 	for _, p := range []*int{nil, new(int)} {
